@@ -937,6 +937,23 @@ def rule_grouplink(repo: Repo, rid: str = "C06.grouplink") -> RuleResult:
             if mine and any("OTHER" in (w.parent_kinds(w.open0, p_) or ()) for _s, n, p_, _k in links if n in inside):
                 member_loops.append((lp, mine))
     unlinked = [lp for lp, mine in member_loops if not L.must_pass_in_loop(G, {}, lp, mine)]
+    # a new type handed to `table.setdefault(name, <new type>)` is stored only when the name is ABSENT: for a name that is registered already
+    # (it was named as a parent earlier) nothing is linked -- unless the turn also sets the parent link of the registered object
+    pm_ = L.parents_of(f)
+
+    def only_if_absent(site) -> bool:
+        cur = site
+        while cur in pm_ and not isinstance(cur, ast.stmt):
+            par = pm_[cur]
+            if isinstance(par, ast.Call) and isinstance(par.func, ast.Attribute) and par.func.attr == "setdefault" and any(cur is a for a in par.args[1:]):
+                return True
+            cur = par
+        return False
+    for lp, mine in member_loops:
+        inside_ = U._nodes_inside(g, lp)
+        here = [(s_, k_) for s_, n, _p, k_ in links if n in inside_]
+        if here and all(k_ == "new" and only_if_absent(s_) for s_, k_ in here) and lp not in unlinked:
+            unlinked.append(lp)
     if unlinked:
         r.fail(Finding(rid, f, "group:member-not-linked", "a name of the group can pass its turn of the flush without getting the parent (neither a new "
                        "type with that parent nor the parent link of the registered type is set): the declaration is lost for types seen before",
